@@ -24,6 +24,7 @@ mod c14s;
 mod c15;
 mod c15f;
 mod c16;
+mod c16f;
 
 pub fn run(engine: &str, toks: Vec<Tok>) -> Vec<Tok> {
     match engine {
@@ -58,6 +59,7 @@ pub fn run(engine: &str, toks: Vec<Tok>) -> Vec<Tok> {
         "c19_run" => c19::run(toks),
         "c16_run" => c16::run(toks),
         "c16_udp" => c16::udp(toks),
+        "c16_front" => c16f::run(toks),
         "c18_session" => c18::session(toks),
         "c12_extract" => c12::extract(toks),
         "c12_peek" => c12::peek(toks),
